@@ -692,6 +692,19 @@ func kindFor(fp *faultProgram, job, kind string, k int) string {
 			return pyFailKinds[k%len(pyFailKinds)]
 		}
 	}
+	if st := fp.prog.Stage(fp.jobStage[job]); st != nil && fp.jobPhase[job] != "split" {
+		// a phase that owes no outputs cannot produce bad ones
+		owed := len(st.Outs)
+		if fp.jobPhase[job] == "main" && st.Split {
+			owed = len(st.ChunkOuts)
+		}
+		if owed == 0 {
+			switch kind {
+			case "trunc_outs", "no_outs", "null_outs", "missing_key", "wrong_type":
+				return []string{"exit", "assert", "errpipe", "kill9", "errpipe_exit0", "segv"}[k%6]
+			}
+		}
+	}
 	return kind
 }
 
